@@ -22,18 +22,19 @@ Theorem C04_bounded_3 : forall toks : list token_type, length toks <= 3 -> c04_o
 Proof. exact c04_bounded_3. Qed.
 Print Assumptions C04_bounded_3.
 
-(* length 4 over the representative alphabet, outside known finding C04-K1 *)
+(* length 4 over the representative alphabet *)
 Theorem C04_bounded_4_rep : forall toks : list token_type,
-  length toks = 4 -> (forall t, In t toks -> In t rep_alphabet) ->
-  known_c04_k1 toks = false -> c04_ok toks = true.
+  length toks = 4 -> (forall t, In t toks -> In t rep_alphabet) -> c04_ok toks = true.
 Proof. intros toks Hl Hin. exact (proj2 (pipeline_bounded_4_rep toks Hl Hin)). Qed.
 Print Assumptions C04_bounded_4_rep.
 
-(* the exclusion is necessary and non-vacuous *)
-Theorem C04_K1_refuted : exists toks, known_c04_k1 toks = true /\ c04_ok toks = false.
-Proof. exact c04_k1_refuted. Qed.
-Print Assumptions C04_K1_refuted.
+(* parse validates its own result (validate_tree in parser.rs, mirrored in the model), so a
+   node graph that is not a tree is reported as a syntax error; what used to be known finding
+   C04-K1 (`[ ] -- 5`: the expression after a side-effect block was detached) is now rejected *)
+Example C04_former_K1_rejected :
+  parse [TT_StartSideEffect; TT_EndSideEffect; TT_Opposite; TT_Number] = Err E_malformed.
+Proof. vm_compute. reflexivity. Qed.
 
 (* full statement (not proved for unbounded length) *)
 Definition C04_full_statement : Prop :=
-  forall toks : list token_type, known_c04_k1 toks = false -> c04_ok toks = true.
+  forall toks : list token_type, c04_ok toks = true.
